@@ -92,6 +92,62 @@ for n in range(N + 1):
     rep.case(("the-correlated", n))
     if not ok:
         rep.fail("the::nested-correlated", f"the() with n={n} solutions depending on a variable of the enclosing query: {st} {r!r}", {"n": n, "nested": True})
+# the(...) asked once per binding of the enclosing query, with a DIFFERENT number of solutions per binding: owners own 0 / 1 / 2
+# items, "the item of that owner" sits on the right of a conjunction; every order of two or three owners
+from krrood.entity_query_language.entity import and_ as _and
+
+
+@dataclass(eq=False)
+class Owner(Symbol):
+    name: str
+    owned: int
+
+
+@dataclass(eq=False)
+class Thing(Symbol):
+    owner: str
+    size: int = 5
+
+
+for counts in itertools.chain(itertools.product(range(3), repeat=2), itertools.product(range(3), repeat=3) if a.tier == "thorough" else [(1, 1, 2), (1, 0, 1), (1, 1, 1)]):
+    def per_binding(counts=counts):
+        owners = [Owner(f"o{i}", c) for i, c in enumerate(counts)]
+        things = [Thing(o.name) for o in owners for _ in range(o.owned)]
+        o = let(Owner, owners)
+        t = let(Thing, things)
+        its_item = the(entity(t, t.owner == o.name))
+        return [r.name for r in an(entity(o, _and(o.owned >= 0, its_item.size > 0))).evaluate()]
+    st, r = guarded(per_binding)
+    first_bad = next((c for c in counts if c != 1), None)
+    ok = (st == "ok" and r == [f"o{i}" for i in range(len(counts))]) if first_bad is None else \
+        (st == "exc" and type(r) is (F.NoSolutionFound if first_bad == 0 else F.MultipleSolutionFound))
+    rep.case(("the-per-binding", counts))
+    if not ok:
+        rep.fail("the::per-outer-binding", f"owners owning {counts} items, the(item of that owner) asked once per owner: {st} {r!r}", {"counts": list(counts)})
+# one description quantified several times, each time with the constraint stated then
+for (n1, c1, lo1, up1), (n2, c2, lo2, up2) in itertools.product([("AtLeast(1)", AtLeast(1), 1, None), ("none", None, 0, None), ("AtMost(5)", AtMost(5), 0, 5)],
+                                                                 [("AtMost(2)", AtMost(2), 0, 2), ("Exactly(4)", Exactly(4), 4, 4), ("Exactly(3)", Exactly(3), 3, 3), ("none", None, 0, None)]):
+    def requantified():
+        x = let(int, [1, 2, 3])
+        description = entity(x, x > 0)
+        first = an(description, quantification=c1) if c1 is not None else an(description)
+        list(first.evaluate())
+        second = an(description, quantification=c2) if c2 is not None else an(description)
+        got = []
+        try:
+            for v in second.evaluate():
+                got.append(v)
+        except Exception as e:
+            return got, e
+        return got, None
+    st, r = guarded(requantified)
+    rep.case(("requantified", n1, n2))
+    ey, eexc = expect(3, lo2, up2)
+    if st == "exc":
+        rep.fail("an::requantified::raised", f"an(description, {n1}) evaluated, then an(description, {n2}): {type(r).__name__}: {r}", {"first": n1, "second": n2})
+    elif not (len(r[0]) == ey and (type(r[1]) if r[1] else None) is eexc):
+        rep.fail("an::requantified", f"an(description, {n1}) evaluated, then an(description, {n2}) over 3 solutions: yielded {len(r[0])} raised {type(r[1]).__name__ if r[1] else None}; "
+                 f"expected {ey} / {eexc.__name__ if eexc else None}", {"first": n1, "second": n2})
 # a quantified query that is SELECTED by an enclosing query and mentioned again in its condition keeps counting
 for upper in (1, 2):
     for n in range(0, 5):
